@@ -185,6 +185,38 @@ def run(ctx):
                        '[["0x%s","0x%s"]]' % ("33" * 20, "00" * 32), '[[["0x%s"],[]]]' % ("33" * 20)):
                 docs.append(render(base_doc(kind), "accessList", al))
                 meta.append((kind, "accessList", al, "model", "access-list-shape"))
+    # every digit count around the exact one (odd ones included) and stray characters at every position class
+    for kind in range(3):
+        for nd in (38, 39, 40, 41, 42):
+            docs.append(render(base_doc(kind), "to", '"0x%s"' % ("a" * nd)))
+            meta.append((kind, "to", "0x" + "a" * nd, bytes.fromhex("aa" * 20) if nd == 40 else None, "address-digit-count"))
+        for ch in "+-_ xXgG.":
+            for pos in (0, 1, 20, 39):
+                h = list("ab" * 20)
+                h[pos] = ch
+                docs.append(render(base_doc(kind), "to", '"0x%s"' % "".join(h)))
+                meta.append((kind, "to", "0x" + "".join(h), "may" if (ch == "x" and pos == 1 and h[0] == "0") else None, "address-stray-char"))
+            for pos in (0, 1, 2):
+                h = list("00ff00")
+                h[pos] = ch
+                docs.append(render(base_doc(kind), "data", '"0x%s"' % "".join(h)))
+                meta.append((kind, "data", "0x" + "".join(h), None, "bytes-stray-char"))
+        if kind:
+            for nd in (62, 63, 64, 65, 66):
+                al = '[["0x%s",["0x%s"]]]' % ("33" * 20, "7" * nd)
+                docs.append(render(base_doc(kind), "accessList", al))
+                meta.append((kind, "accessList", al, [[b"\x33" * 20, [bytes.fromhex("77" * 32)]]] if nd == 64 else None, "storage-key-digit-count"))
+            for ch in "+-_ xXgG.":
+                for pos in (0, 1, 31, 63):
+                    h = list("0a" * 32)
+                    h[pos] = ch
+                    al = '[["0x%s",["0x%s"]]]' % ("33" * 20, "".join(h))
+                    docs.append(render(base_doc(kind), "accessList", al))
+                    meta.append((kind, "accessList", al, None, "storage-key-stray-char"))
+            for nd in (39, 41):
+                al = '[["0x%s",[]]]' % ("3" * nd)
+                docs.append(render(base_doc(kind), "accessList", al))
+                meta.append((kind, "accessList", al, None, "access-list-address-digit-count"))
     probes = txprobe.run_docs(ctx, docs, "C13bytes", clause="bytes-vs-model", classes=[m[4] for m in meta])
     for (kind, f, tok, want, how), p in zip(meta, probes):
         case = dict(op="transaction field", kind=kind, field=f, token=short(tok, 120), document=short(p.doc, 240))
